@@ -5,6 +5,7 @@ package vh
 import (
 	"encoding/json"
 	"fmt"
+	"sync"
 	"time"
 
 	"github.com/vipnode/vipnode/v2/internal/verif/vsched"
@@ -162,8 +163,22 @@ func (spec *DFSSpec) obs(s *vsched.Sched) string {
 
 var _ = time.Now
 
-// Par runs fns as concurrent main threads under the controlled scheduler and waits for all of them.
+// Par runs fns concurrently and waits for all of them: as main threads under the controlled
+// scheduler, as plain goroutines in pass-through mode (free-running -race pass).
 func Par(names []string, fns ...func()) {
+	if !vsched.Active() {
+		var wg sync.WaitGroup
+		wg.Add(len(fns))
+		for _, f := range fns {
+			f := f
+			go func() {
+				defer wg.Done()
+				f()
+			}()
+		}
+		wg.Wait()
+		return
+	}
 	var wg vsched.WaitGroup
 	wg.Add(len(fns))
 	for i, f := range fns {
